@@ -145,11 +145,18 @@ def must_pass(prog, leaves, body, leafset, mode='all', starts=None, targets=None
     cflows = flow.all_call_flows(body)
     via = set()
     unchecked = []
+    pass_blocks = set()
     for cb in gcalls:
         cf = cflows[cb]
         edges = cf.ok_edges if polarity == 'ok' else cf.err_edges
+        t = body.blocks[cb].term
+        rt = body.locals[t.dest.local] if t.dest is not None and t.dest.is_local() else ''
         if edges:
             via |= edges
+        elif flow.type_kind(rt) is None and rt not in ('()',):
+            # a checker that returns a verdict record (not a Result): passing the call is what
+            # can be required structurally; the comparison of its fields is a value matter
+            pass_blocks.add(cb)
         elif not cf.forward_blocks:
             unchecked.append(cb)
     if targets is None:
@@ -157,7 +164,7 @@ def must_pass(prog, leaves, body, leafset, mode='all', starts=None, targets=None
         targets = [e['bb'] for e in tg]
     starts = [0] if starts is None else starts
     extra_cut_edges = set(extra_cut_edges) | infeasible_true_edges(prog, body)
-    reach = flow.reach_edges(body, starts, avoid_edges=set(via) | set(extra_cut_edges))
+    reach = flow.reach_edges(body, starts, avoid_edges=set(via) | set(extra_cut_edges), avoid_blocks=pass_blocks)
     escaping = [t for t in targets if t in reach]
     paths = []
     for t in escaping[:3]:
@@ -229,7 +236,8 @@ def nodrop(prog, leaves, body, relevant):
             # escapes into something we do not follow (pushed onto a violations vector, etc.)
             continue
         if ok_exits is None:
-            ok_exits = [e['bb'] for e in flow.exit_assignments(body) if e['cls'] == 'ok']
+            # anything that can be a success: Ok(..) and results forwarded from other calls
+            ok_exits = [e['bb'] for e in success_exit_blocks(body)]
         reach = flow.reach_edges(body, [d for (_, d) in cf.err_edges])
         # report style: the failure is recorded (pushed onto a violations collection) and the
         # verdict is taken from that collection at the end
@@ -241,8 +249,8 @@ def nodrop(prog, leaves, body, relevant):
         if recorded:
             continue
         # paths that come back around a loop and later succeed are still failures swallowed
-        esc = [e for e in ok_exits if e in reach]
-        if esc and flow.type_kind(body.locals[0]) in ('result', 'option'):
+        esc = [e for e in ok_exits if e in reach and e not in cf.forward_blocks]
+        if esc and flow.type_kind(body.locals[0]) in ('result', 'option', 'bool'):
             bad.append((bb, name, 'failure edge reaches a success exit (block %d)' % esc[0]))
     return bad
 
